@@ -16,4 +16,14 @@ let exec_sync (line : string) : string =
   let (o, log) = execute_request s d values w in
   Lib_xrun.p_outcome o log
 
-let families = [ ("exec_sync", exec_sync) ]
+(* the reference executor (Run/RefExecute.v): response only *)
+let exec_ref (line : string) : string =
+  let (s, d, values, w, _) = parse_case line in
+  let cls = match td_build s d with
+    | Some rd when known_covariant s rd -> "covariant_field_type"
+    | _ -> "-" in
+  (match ref_execute s d values w with
+   | EoResponse r -> "ok " ^ Lib_xrun.p_response r
+   | o -> Lib_xrun.p_outcome o []) ^ " cls=" ^ cls
+
+let families = [ ("exec_sync", exec_sync); ("exec_ref", exec_ref) ]
